@@ -56,3 +56,34 @@ def same(a, b):
 def ram_ths(samples, **metadata):
     from scared import traces
     return traces.formats.read_ths_from_ram(samples=samples, **metadata)
+
+
+def enable_lut_cache():
+    """Harness-side memoisation of scared's value->class-index lookup builder.
+
+    ``partitioned._define_lut_func(partitions)`` JIT-compiles a fresh numba.vectorize closure for every instance
+    (~0.3-0.6 s).  The function it returns depends on ``partitions`` only, so it is memoised per (dtype, bytes) of the
+    class list: the real builder still runs (once) for every distinct class list, the kernels and everything else are
+    untouched.  Disable with VERIF_LUT_CACHE=0.
+    """
+    import os
+    if os.environ.get('VERIF_LUT_CACHE', '1') == '0':
+        return False
+    orig = getattr(_part, '_define_lut_func', None)
+    if orig is None or getattr(orig, '_verif_cached', False):
+        return orig is not None
+    cache = {}
+
+    def cached(partitions):
+        arr = np.asarray(partitions)
+        key = (arr.dtype.str, arr.shape, arr.tobytes())
+        if key not in cache:
+            cache[key] = orig(partitions)
+        return cache[key]
+    cached._verif_cached = True
+    cached._verif_cache = cache
+    _part._define_lut_func = cached
+    return True
+
+
+enable_lut_cache()
